@@ -304,18 +304,21 @@ func cmdReplay(args []string) int {
 	return 0
 }
 
-// confirmViolation writes the replay file of v and runs it natively.
-func confirmViolation(v *Violation, property, pkgPath string, n int) (bool, string, string) {
+func writeReplayFile(v *Violation, property, pkgPath string, n int) string {
 	os.MkdirAll(filepath.Join(verifRoot, "replays"), 0o755)
 	path := filepath.Join(verifRoot, "replays", fmt.Sprintf("%s-%s-%d.json", property, v.Harness, n))
 	rep := map[string]interface{}{
 		"property": property, "harness": v.Harness, "package": pkgPath, "label": v.Label,
 		"model": v.Model, "choices": v.Choices, "observe": v.Observe, "trace": v.Trace,
 	}
-	if err := writeJSON(path, rep); err != nil {
-		return false, path, err.Error()
-	}
+	writeJSON(path, rep)
 	v.Replay = path
+	return path
+}
+
+// confirmViolation writes the replay file of v and runs it natively.
+func confirmViolation(v *Violation, property, pkgPath string, n int) (bool, string, string) {
+	path := writeReplayFile(v, property, pkgPath, n)
 	failed, mismatch, panicked, out, err := nativeReplay(pkgPath, v.Harness, path)
 	if err != nil {
 		tail := out
